@@ -7,7 +7,8 @@ from . import sem
 
 
 def programs(thorough, seed, rnd):
-    progs = Fam.operator_programs() + Fam.template_programs() + Fam.capture_programs() + Fam.lambda_programs() + Fam.singleton_programs()
+    progs = Fam.operator_programs() + Fam.template_programs() + Fam.capture_programs() + Fam.lambda_programs() + Fam.singleton_programs() + \
+        Fam.closure_programs() + Fam.order_programs(seed)
     progs += Fam.nestings(2, rnd, sample=250 if not thorough else 900)
     progs += Fam.random_programs(2500 if thorough else 400, seed)
     return progs
@@ -23,7 +24,7 @@ def run(args, prop="C01", backends=("vm",)):
                        "non-trivial = distinct program texts executed")
     rep.assumptions = ["integers stay below 2^30 in HmsSem (64-bit boundary arithmetic is HmsInt64's family)",
                        "floats are dyadic rationals; other float results are not decided",
-                       "display order of objects with several fields is not decided here (C14)"]
+                       "a function literal uses the variables of its surroundings by reference (lexical scoping)"]
     progs = programs(thorough, C.seed(), rnd)
     pool = C.Pool(C.build_worker())
     results, cases, rendered = sem.run_programs(progs, rep, backends=backends, pool=pool,
